@@ -200,6 +200,16 @@ Qed.
 Theorem reporter_exact c es ms : reports (async_history c es ms) = spec_reports es ms.
 Proof. rewrite async_refines_spec. apply spec_reports_ok. Qed.
 
+(* both shutdown styles give the same history: the left-over report belongs to the end of the input loop *)
+Lemma async_history_sd_eq c sd es ms : async_history_sd c sd es ms = async_history c es ms.
+Proof.
+  unfold async_history_sd, async_history. destruct (run_async c (init es) ms) as [s o].
+  destruct sd; cbn [close_call_events]; rewrite app_nil_r; reflexivity.
+Qed.
+
+Theorem reporter_exact_sd c sd es ms : reports (async_history_sd c sd es ms) = spec_reports es ms.
+Proof. rewrite async_history_sd_eq. apply reporter_exact. Qed.
+
 (* ---------- sync mock ---------- *)
 Definition sync_expected (s : st) (m : msg) : sret :=
   match exps s with
